@@ -143,6 +143,7 @@ pub fn kind_of(any: AnyGc<'_>) -> Kind {
         AnyGc::ZLeaf(_) => Kind::ZLeaf,
         AnyGc::SwhPod(g) => Kind::SwhPod { len: g.slice.len() as u8 },
         AnyGc::CellP(_) => Kind::CellP,
+        AnyGc::Leaky(_) => Kind::Leaky,
         AnyGc::CopySlice(g) => Kind::CopySlice { len: g.len() as u8 },
         AnyGc::CopySwh(g) => Kind::CopySwh { len: g.slice.len() as u8 },
         AnyGc::Field(_) => Kind::Field,
@@ -166,6 +167,8 @@ pub fn stored_id(any: AnyGc<'_>) -> Option<Id> {
     match canon(any) {
         AnyGc::Node(g) => Some(g.borrow().id),
         AnyGc::Bag(g) => Some(g.borrow().id),
+        // a leaked guard: nothing can be read through the lock any more
+        AnyGc::Leaky(g) => g.try_borrow().ok().map(|b| b.id),
         AnyGc::CopySwh(g) => Some(g.header.id),
         AnyGc::SwhPod(g) => Some(g.header.id),
         AnyGc::CellP(g) => Some({ let b = g.get(); b.id }),
@@ -258,6 +261,11 @@ pub fn alloc<'gc>(mc: &Mutation<'gc>, kind: Kind, id: Id) -> AnyGc<'gc> {
             let v = RefLock::new(LeafBody { id, tok: Tok(id), val: Cell::new(0) });
             let _t = seam::track();
             AnyGc::Leaf(Gc::new(mc, v))
+        }
+        Kind::Leaky => {
+            let v = RefLock::new(LeakyBody { id, tok: Tok(id), e: None });
+            let _t = seam::track();
+            AnyGc::Leaky(Gc::new(mc, v))
         }
         Kind::LeafLock => {
             let _t = seam::track();
@@ -414,6 +422,8 @@ pub fn read_strong<'gc>(any: AnyGc<'gc>, k: usize) -> Edge<'gc> {
         AnyGc::Once(g) => g.get().map(|b| b.1),
         AnyGc::Leaf(_) | AnyGc::LeafLock(_) | AnyGc::LeafStatic(_) => None,
         AnyGc::SetHolder(_) => None,
+        // a leaked guard hides the edge from the client (callers consult the shadow's `leaked`)
+        AnyGc::Leaky(g) => g.try_borrow().ok().and_then(|b| b.e),
     }
 }
 
@@ -626,6 +636,13 @@ pub fn write_strong<'gc>(mc: &Mutation<'gc>, any: AnyGc<'gc>, self_id: Id, k: us
             }
         }
         AnyGc::Leaf(_) | AnyGc::LeafLock(_) | AnyGc::LeafStatic(_) | AnyGc::SetHolder(_) => Wrote::Refused,
+        AnyGc::Leaky(g) => match (route, g.try_borrow_mut(mc)) {
+            (_, Err(_)) => Wrote::Refused,
+            (_, Ok(mut b)) => {
+                b.e = v;
+                Wrote::Done
+            }
+        },
     }
 }
 
@@ -718,6 +735,9 @@ pub fn touch<'gc>(mc: &Mutation<'gc>, any: AnyGc<'gc>) {
         }
         AnyGc::Bag(g) => {
             let _ = g.borrow_mut(mc);
+        }
+        AnyGc::Leaky(g) => {
+            let _ = g.try_borrow_mut(mc);
         }
         AnyGc::Cell(g) => g.set(mc, g.get()),
         AnyGc::CellP(g) => g.set(mc, g.get()),
